@@ -107,19 +107,33 @@ func c05RR(r *fw.R, ar *wire.RR, tn string) {
 		r.Fail(c05Key(key("rdata-differs"), ar), "text %q re-parses to different octets\n got  %x\n want %x", text, got, want)
 		return
 	}
-	// as a line of a zone: the same text followed by another record line — the reader may neither run into the
-	// next line nor leave something of this one behind
+	// as a line of a zone: the same text followed by another record of the same type (the type's default record under
+	// another owner — what one reader keeps between records of a type may not leak from one into the other) and by an A
+	// record — the reader may neither run into the next line nor leave something of this one behind, and the first
+	// record, looked at after the others have been read, is still what it was
 	{
-		zp := dns.NewZoneParser(strings.NewReader(text+"\nnext.example.\t7\tIN\tA\t192.0.2.77\n"), "", "")
+		sib := c05Sibling(ar.Type)
+		lines := text + "\n"
+		if sib != "" {
+			lines += sib + "\n"
+		}
+		lines += "next.example.\t7\tIN\tA\t192.0.2.77\n"
+		zp := dns.NewZoneParser(strings.NewReader(lines), "", "")
 		var got []dns.RR
-		for x, ok := zp.Next(); ok && len(got) < 4; x, ok = zp.Next() {
+		for x, ok := zp.Next(); ok && len(got) < 5; x, ok = zp.Next() {
 			got = append(got, x)
 		}
+		n := 2
+		if sib != "" {
+			n = 3
+		}
 		switch {
-		case zp.Err() != nil || len(got) != 2:
-			r.Fail(c05Key(key("zone-context"), ar), "the text followed by another record line reads as %d records, Err() = %v (alone it reads fine)\n text %q", len(got), zp.Err(), text)
-		case got[0].String() != rr2.String() || got[1].Header().Name != "next.example." || got[1].String() != "next.example.\t7\tIN\tA\t192.0.2.77":
-			r.Fail(c05Key(key("zone-context"), ar), "the text followed by another record line reads as %q and %q\n text %q", got[0], got[1], text)
+		case zp.Err() != nil || len(got) != n:
+			r.Fail(c05Key(key("zone-context"), ar), "the text followed by other record lines reads as %d records, Err() = %v (alone it reads fine)\n text %q", len(got), zp.Err(), lines)
+		case got[0].String() != rr2.String() || got[n-1].Header().Name != "next.example." || got[n-1].String() != "next.example.\t7\tIN\tA\t192.0.2.77":
+			r.Fail(c05Key(key("zone-context"), ar), "the text followed by other record lines reads as %q … %q\n text %q", got[0], got[n-1], lines)
+		case sib != "" && got[1].String() != sib:
+			r.Fail(c05Key(key("zone-context"), ar), "the record of the same type behind this one reads as %q, alone as %q\n text %q", got[1], sib, lines)
 		}
 	}
 	// text-origin: printing the parsed record and parsing again is stable
@@ -714,4 +728,24 @@ func c05Spaces(c *fw.Ctx) {
 				})
 			}
 		})
+}
+
+var c05SiblingCache = map[uint16]string{}
+
+// c05Sibling returns the text of the default record of type t under the owner sibling.example. (as the library
+// prints it after reading it), or "" when that text is not re-readable as it stands.
+func c05Sibling(t uint16) string {
+	if s, ok := c05SiblingCache[t]; ok {
+		return s
+	}
+	out := ""
+	if sp := wire.Specs[t]; sp != nil && t != 41 {
+		if rr, err := bind.ToGo(&wire.RR{Name: enum.L("sibling", "example"), Type: t, Class: 1, TTL: 9, Vals: enum.Default(sp)}); err == nil {
+			if x, err := dns.NewRR(rr.String()); err == nil && x != nil && x.String() == rr.String() && !strings.Contains(rr.String(), "\n") {
+				out = rr.String()
+			}
+		}
+	}
+	c05SiblingCache[t] = out
+	return out
 }
